@@ -245,6 +245,8 @@ def run(prog: Program) -> Results:
     no_greedy_strip(prog, res, "R-C01-10")
     scoped_nodes_render_their_let(prog, res, "R-C01-12")
     container_children_all_handled(prog, res, "R-C01-13")
+    byte_offsets_index_bytes(prog, res, "R-C01-14")
+    parallel_lists_stay_aligned(prog, res, "R-C01-15")
     no_text_rewriting(prog, res, "R-C01-9", renderer_functions(prog, cg) + [prog.func("NixSourceCode.rebuild")])
     from sa.rules import kinds
     kinds.check(prog, res, "R-C01-11")
@@ -581,3 +583,103 @@ def container_children_all_handled(prog: Program, res: Results, rid: str) -> Non
                     res.add(rid, (f.key, "child kind silently skipped", l_kind, kind), f.loc(loop),
                             f"{f.key}: a `{kind}` child of `{l_kind}` matches no arm of the loop and nothing rejects it: "
                             f"`{{ inherit a ${{\"b\"}} \"c\"; }}` is rebuilt as `{{ inherit a \"c\"; }}` — the name is dropped without an error")
+
+
+# ------------------------------------------------------------------------------------------------ R-C01-14 / R-C01-15
+def byte_offsets_index_bytes(prog: Program, res: Results, rid: str) -> None:
+    r = res.rule(rid, "byte offsets index bytes: a slice whose bounds are tree-sitter byte offsets (`…_byte`) is applied to a bytes "
+                 "object, never to decoded text — after the first multi-byte character every window would be shifted", floor=1)
+    str_vars = set()
+    for mod, assigns in prog.module_assigns.items():
+        tree = prog.modules[mod]
+        for st in tree.body:
+            if isinstance(st, ast.AnnAssign) and isinstance(st.target, ast.Name) and "ContextVar[str" in norm(st.annotation):
+                str_vars.add(st.target.id)
+    for f in prog.all_functions():
+        if not f.module.startswith("nix_manipulator/expressions/"):
+            continue
+        for n in walk_no_nested(f.node):
+            if not (isinstance(n, ast.Subscript) and isinstance(n.slice, ast.Slice)):
+                continue
+            bounds = [b for b in (n.slice.lower, n.slice.upper) if b is not None]
+            if not bounds:
+                continue
+            by_offsets = all("byte" in norm(b) for b in bounds)
+            if not by_offsets and "bytes" not in norm(n.value):
+                continue
+            r.instances += 1
+            if not by_offsets:
+                r.ob(True, {"site": f.key, "slice": norm(n)[:50], "sliced": "bytes"})
+                continue
+            v = n.value
+            is_str = False
+            why = ""
+            if isinstance(v, ast.Name):
+                for d in ast.walk(f.node):
+                    if isinstance(d, ast.Assign) and norm(d.targets[0]) == v.id:
+                        dv = d.value
+                        if isinstance(dv, ast.Call) and isinstance(dv.func, ast.Attribute) and dv.func.attr == "decode":
+                            is_str, why = True, norm(d)[:50]
+                        if isinstance(dv, ast.Call) and isinstance(dv.func, ast.Attribute) and dv.func.attr == "get" and norm(dv.func.value) in str_vars:
+                            is_str, why = True, norm(d)[:50]
+                for a_ in f.node.args.args + f.node.args.kwonlyargs:
+                    if a_.arg == v.id and a_.annotation is not None and norm(a_.annotation).startswith("str"):
+                        is_str, why = True, f"parameter {a_.arg}: str"
+            elif isinstance(v, ast.Call) and isinstance(v.func, ast.Attribute) and v.func.attr == "decode":
+                is_str, why = True, norm(v)[:40]
+            r.ob(not is_str, {"site": f.key, "slice": norm(n)[:50]})
+            if is_str:
+                res.add(rid, (f.key, "decoded text sliced by byte offsets"), f.loc(n),
+                        f"{f.key}: `{norm(n)[:60]}` slices text ({why}) with byte offsets: in a file that contains a non-ASCII character "
+                        f"every gap read after it is shifted, so newline/comment decisions are taken on the wrong characters")
+
+
+def parallel_lists_stay_aligned(prog: Program, res: Results, rid: str) -> None:
+    r = res.rule(rid, "lists the renderer walks in parallel are extended in parallel: for `zip(self.gaps, self.items[1:])` the parser "
+                 "appends a gap for every item after the first, under that single condition — zip stops at the shorter list, so a "
+                 "gap skipped for any other reason silently drops the last item", floor=1)
+    for f in prog.all_functions():
+        owner = f
+        while owner.parent is not None:
+            owner = owner.parent
+        if not owner.cls:
+            continue
+        for c in walk_no_nested(f.node):
+            if not (isinstance(c, ast.Call) and isinstance(c.func, ast.Name) and c.func.id == "zip" and len(c.args) == 2):
+                continue
+            a, b = c.args
+            if not (isinstance(a, ast.Attribute) and norm(a.value) == "self" and isinstance(b, ast.Subscript) and isinstance(b.value, ast.Attribute)
+                    and norm(b.value.value) == "self" and isinstance(b.slice, ast.Slice) and norm(b.slice.lower) == "1"):
+                continue
+            gaps_f, items_f = a.attr, b.value.attr
+            fc = prog.method(owner.cls, "from_cst")
+            if fc is None:
+                continue
+            locals_ = {}
+            for call in ast.walk(fc.node):
+                if isinstance(call, ast.Call) and callee(call) in ("cls", owner.cls):
+                    for k in call.keywords:
+                        if k.arg in (gaps_f, items_f) and isinstance(k.value, ast.Name):
+                            locals_[k.arg] = k.value.id
+            if len(locals_) != 2:
+                continue
+            from sa.util import parent_map
+            pm = parent_map(fc.node)
+            for ap in [x for x in ast.walk(fc.node) if isinstance(x, ast.Call) and isinstance(x.func, ast.Attribute) and x.func.attr == "append"
+                       and norm(x.func.value) == locals_[gaps_f]]:
+                r.instances += 1
+                cur, guards = ap, []
+                while cur in pm and not isinstance(pm[cur], (ast.For, ast.While, ast.FunctionDef)):
+                    par = pm[cur]
+                    if isinstance(par, ast.If) and any(cur is y or any(cur is z for z in ast.walk(y)) for y in par.body) and not any(
+                            isinstance(x, ast.Call) and isinstance(x.func, ast.Attribute) and x.func.attr == "append" and norm(x.func.value) == locals_[items_f]
+                            for y in par.body for x in ast.walk(y)):
+                        guards.append(par.test)
+                    cur = par
+                single = len(guards) == 1 and not isinstance(guards[0], ast.BoolOp)
+                r.ob(single, {"site": fc.key, "append": norm(ap)[:60], "guards": [norm(g)[:50] for g in guards]})
+                if not single:
+                    res.add(rid, (fc.key, "gap list extended under an extra condition", gaps_f), fc.loc(ap),
+                            f"{fc.key}: `{norm(ap)[:60]}` runs under {[norm(g)[:60] for g in guards]}: whenever that extra condition fails, "
+                            f"`{gaps_f}` gets shorter than `{items_f}[1:]` and `zip` in {f.key} drops the last {items_f[:-1]} — "
+                            f"`inherit pkgs /* x */ stdenv;` loses `stdenv`")
